@@ -23,6 +23,9 @@ NR = ["", "an extra info on one side", "name unset on B", "name unset on A", "a 
 for k in range(1, 6):
   HARNESSES.append(dict(COMMON, name="build_nonrep%d" % k, entry="h_build", encoded=BUILD, defines={"EDITS": 15, "NONREP": k}, tiers={"quick": {}, "thorough": {}},
        bounds="pair (A, B) with all four representable edits (symbolic values) plus: %s" % NR[k], cost=30))
+for _w, _nm in ((0, "obj"), (1, "topo")):
+  HARNESSES.append(dict(COMMON, name="build_dup_%s" % _nm, entry="h_build_dup", encoded=BUILD + APPLY, defines={"DUPWHERE": _w}, object_bits=13, tiers={"quick": {"defines": {"DUPV": 2}}, "thorough": {"defines": {"DUPV": 3}, "timeout": 3000}},
+       bounds="pair (A, B) with two infos of the SAME name on %s, each of the four values any of 2 (thorough: 3) strings: when build returns 0 the diff must apply, make A equal to B position by position, leave an empty diff, and reverse; otherwise TOO_COMPLEX" % ("PU1" if _w == 0 else "the topology"), cost=30))
 HARNESSES.append(dict(COMMON, name="build_distances", entry="h_build_dist", encoded=BUILD + ["distances comparison of hwloc_topology_diff_build"], tiers={"quick": {}, "thorough": {}},
        unwindset=dict(COMMON["unwindset"], **{"memcmp.0": 40}), bounds="two identical topologies, one 2x2 distances structure on each side with arbitrary values and kinds", cost=20))
 # diff export -> import through the common XML code (element-tree harness of C05: same source, same query)
